@@ -1,4 +1,5 @@
 import Driver.Codec
+import Driver.OpsCardWire
 import Driver.OpsRawXml
 import Driver.OpsFs
 import GoWebdav.Spec.Propfind
@@ -78,6 +79,19 @@ def opPfScope (args : List SExp) : Option OpResult := do
         let impl := if notFound || (GoWebdav.Impl.Propfind.scope h path level d).isEmpty then "404" else if form = "noform" then "400" else pr (GoWebdav.Impl.Propfind.scope h path level d)
         let want := if notFound || (GoWebdav.Spec.Propfind.scope h path level d).isEmpty then "404" else if form = "noform" then "400" else pr (GoWebdav.Spec.Propfind.scope h path level d)
         pure ⟨impl, mustEqual "C11" (s!"{server}-scope-{match level with | .root => "root" | .principal => "principal" | .homeSet => "homeset" | .collection => "collection" | .object => "object" | .deeper => "deeper"}") want⟩
+  | _ => none
+
+/-- `pf.prin <principal> ( ( cal|card <path> ) … ) => ( ( cal <href> ) ( card <href> ) ( cup <href> ) )`: the principal
+    helper exposes every configured home set under its own name with its own path, and the principal's href -/
+def opPfPrin (args : List SExp) : Option OpResult := do
+  match args with
+  | [pr, .list sets] =>
+    let pr ← pr.str?
+    let sets ← sets.mapM (fun s => match s with
+      | .list [.atom k, p] => do pure s!"( {k} {hexStr (escStr (← p.str?))} )"
+      | _ => none)
+    let want := sxList (sortStr (s!"( cup {hexStr (escStr pr)} )" :: sets))
+    pure ⟨want, mustEqual "C11" "principal-helper-property-values" want⟩
   | _ => none
 
 end Driver
